@@ -17,6 +17,8 @@ type mapInfo struct {
 	kt, vt  types.Type
 	vsorts  []string
 	ok      bool
+	// composite: struct key packed by an injective constructor
+	composite bool
 }
 
 func (e *Enc) mapInfoOf(t types.Type) mapInfo {
@@ -24,28 +26,69 @@ func (e *Enc) mapInfoOf(t types.Type) mapInfo {
 	mi := mapInfo{kt: mt.Key(), vt: mt.Elem()}
 	mi.fam = "Map$" + sanitize(typeKey(mt.Key())) + "$" + sanitize(typeKey(mt.Elem()))
 	ks := leafSorts(mt.Key())
-	if len(ks) != 1 {
+	if len(ks) == 0 {
 		return mi
 	}
-	mi.keySort = ks[0]
+	if len(ks) == 1 {
+		mi.keySort = ks[0]
+	} else {
+		// composite (struct) keys are packed into one Int by an injective constructor
+		mi.keySort = SInt
+		mi.composite = true
+	}
 	mi.vsorts = leafSorts(mt.Elem())
 	mi.ok = true
 	return mi
 }
 
-// canonical key term (arrays are normalised to their first N elements)
-func (e *Enc) mapKey(v Value, kt types.Type) Term {
-	leaves := flatten(v)
-	k := leaves[0]
-	if a, ok := kt.Underlying().(*types.Array); ok && !isOpaque(kt) && a.Len() <= 16 {
+// normKeyLeaves lists the leaves of a key value in flatten order; fixed-size scalar arrays are normalised to
+// their first N elements (SMT arrays are total, Go compares N elements).
+func normKeyLeaves(v Value, t types.Type) []Term {
+	if a, ok := t.Underlying().(*types.Array); ok && !isOpaque(t) && shapeKindOf(t) == kScalar && a.Len() <= 16 {
+		k := flatten(v)[0]
 		es := scalarSort(a.Elem())
-		t := constArr(arrSort(SInt, es), zeroOfSort(es))
+		r := constArr(arrSort(SInt, es), zeroOfSort(es))
 		for i := int64(0); i < a.Len(); i++ {
-			t = sto(t, intLit(i), sel(k, intLit(i)))
+			r = sto(r, intLit(i), sel(k, intLit(i)))
 		}
-		return t
+		return []Term{r}
 	}
-	return k
+	if sv, ok := v.(StructV); ok {
+		st := t.Underlying().(*types.Struct)
+		var out []Term
+		for i, f := range sv.F {
+			out = append(out, normKeyLeaves(f, st.Field(i).Type())...)
+		}
+		return out
+	}
+	return flatten(v)
+}
+
+// canonical key term
+func (e *Enc) mapKey(v Value, kt types.Type) Term {
+	ks := leafSorts(kt)
+	if len(ks) > 1 {
+		leaves := normKeyLeaves(v, kt)
+		name := "mkkey$" + sanitize(typeKey(kt))
+		if !e.declSet[name] {
+			e.declareFun(name, ks, SInt)
+			var vars, args []string
+			for i, srt := range ks {
+				vars = append(vars, fmt.Sprintf("(k%d %s)", i, srt))
+				args = append(args, fmt.Sprintf("k%d", i))
+			}
+			appl := fmt.Sprintf("(%s %s)", smtSym(name), strings.Join(args, " "))
+			var cs []string
+			for i, srt := range ks {
+				pn := fmt.Sprintf("%s.p%d", name, i)
+				e.declareFun(pn, []string{SInt}, srt)
+				cs = append(cs, fmt.Sprintf("(= (%s %s) k%d)", smtSym(pn), appl, i))
+			}
+			e.axiom(fmt.Sprintf("(forall (%s) (! (and %s) :pattern (%s)))", strings.Join(vars, " "), strings.Join(cs, " "), appl))
+		}
+		return app(SInt, smtSym(name), leaves...)
+	}
+	return normKeyLeaves(v, kt)[0]
 }
 
 func (e *Enc) mapDom(h *HeapState, mi mapInfo, m Term) Term {
